@@ -7,22 +7,66 @@ IMPORTS = ("From Coq Require Import PrimFloat.\nFrom Ckl Require Import Prelude.
 FUEL = 400
 
 
+MODEL_NAMES = {"add", "sub", "mul", "div", "mod", "equals", "not_equals", "less", "less_equals", "greater", "greater_equals", "compare",
+               "length", "string", "int", "list", "set", "identity", "type", "append", "remove", "put", "insert_at", "delete_at",
+               "sublist", "range", "is_null", "NULL"}
+_BASE = None
+
+
+def base_only_names():
+    """names bound in the real base environment that the model's base frame does not have: a program
+    that mentions one of them is outside the modelled fragment"""
+    global _BASE
+    if _BASE is None:
+        from . import impl
+        I = impl.new_interpreter(False, False)
+        _BASE = set(I.base_environment.getSymbols()) - MODEL_NAMES
+    return _BASE
+
+
+def identifiers(node, acc):
+    import ckl.nodes as N
+    if isinstance(node, N.NodeIdentifier):
+        acc.add(node.value)
+    if isinstance(node, (N.NodeRequire, N.NodeClass)):
+        acc.add("<unmodelled>")
+    for v in vars(node).values() if hasattr(node, "__dict__") else []:
+        vs = v if isinstance(v, (list, tuple)) else [v]
+        for x in vs:
+            if isinstance(x, (list, tuple)):
+                for y in x:
+                    if hasattr(y, "evaluate"):
+                        identifiers(y, acc)
+            elif hasattr(x, "evaluate") and not isinstance(x, type(None)):
+                identifiers(x, acc)
+    return acc
+
+
 def model_terms(sources, name="t"):
-    """Gallina terms (or None when the real parser rejects the source)"""
+    """Gallina terms; None when the real parser rejects the source; "unmodelled" when the program mentions a
+    name of the real base environment that the model does not bind (or uses require / class)"""
     from tools import ast2model
     from ckl.errors import CklSyntaxError
+    from ckl.parser import parse_script
     out = []
+    extra = base_only_names()
     for src in sources:
         try:
-            out.append(ast2model.program(src, name))
+            tree = parse_script(src, name)
         except CklSyntaxError:
             out.append(None)
+            continue
+        ids = identifiers(tree, set())
+        if ids & extra or "<unmodelled>" in ids:
+            out.append("unmodelled")
+        else:
+            out.append(ast2model.conv(tree))
     return out
 
 
 def run_model(sources, tag="ev", per_file=25, fuel=FUEL, timeout=900):
     terms = model_terms(sources)
-    idx = [i for i, t in enumerate(terms) if t is not None]
+    idx = [i for i, t in enumerate(terms) if t is not None and t != "unmodelled"]
     evals = []
     per = 10
     for k in range(0, len(idx), per):
@@ -31,7 +75,7 @@ def run_model(sources, tag="ev", per_file=25, fuel=FUEL, timeout=900):
     if not ok:
         return False, err, None
     flat = [x for b in blocks for x in b]
-    res = [("syntax",)] * len(sources)
+    res = [("syntax",) if t is None else ("unmodelled",) for t in terms]
     for i, m in zip(idx, flat):
         res[i] = gal.decode_result(m)
     return True, "", res
